@@ -36,7 +36,9 @@ func c02Build(ssa bool) *c02World {
 	x := &c02World{cworld: w, ssa: ssa}
 	p := kit.Obj(kit.Thing, "n1", "p")
 	kit.Field(p, "puid", "metadata", "uid")
-	kit.Field(p, kit.M{"matchLabels": kit.M{"app": "x"}}, "spec", "selector")
+	// the parent's selector has a history: while the children were first created it also selected app=other; it
+	// is narrowed to app=x before the judged sync (what counts is the selector of the parent as observed then)
+	kit.Field(p, kit.M{"matchExpressions": kit.L{kit.M{"key": "app", "operator": "In", "values": kit.L{"x", "other"}}}}, "spec", "selector")
 	w.Sim.Seed(p)
 	child := func(k *sim.Kind, ns, name, v string) kit.M {
 		return kit.Labels(kit.Field(kit.Obj(k, ns, name), v, "spec", "v"), "app", "x")
@@ -61,6 +63,9 @@ func c02Build(ssa bool) *c02World {
 	}
 	boot = false
 	ver = "2"
+	w.Sim.Edit(kit.Thing, "n1", "p", func(o map[string]interface{}) {
+		kit.Field(o, map[string]interface{}{"matchLabels": map[string]interface{}{"app": "x"}}, "spec", "selector")
+	})
 	// e: nobody controls it any more; it still lists the parent as a plain (non-controller) owner
 	w.Sim.Edit(kit.Leaf, "n1", "e", func(o map[string]interface{}) { kit.Owners(o, kit.OwnerRef(kit.Thing, "p", "puid", false)) })
 	w.Sim.Edit(kit.Leaf, "n1", "g", func(o map[string]interface{}) { kit.Labels(o, "app", "y") })
